@@ -293,6 +293,16 @@ def run_check(prop, tier, seed, replay=None):
                 tie_broken.append('proof obligation: ' + p)
             if obl['obligations'] == 0:
                 tie_broken.append('proof obligation: properties/%s.v states no theorem' % prop)
+            if tier == 'thorough' and not replay:
+                # independent re-check of the compiled property file and everything it depends on
+                rc, out, dt = sh(['coqchk', '-silent', '-o', '-Q', 'model', 'NJ', '-Q', 'proofs', 'NJ', '-Q', 'properties', 'NJ', 'NJ.' + prop],
+                                 timeout=6000, cwd=COQ)
+                summary = out[out.find('CONTEXT SUMMARY'):] if 'CONTEXT SUMMARY' in out else out[-1500:]
+                okchk = rc == 0 and all(re.search(k + r':\s*<none>', summary) for k in
+                                        ('Axioms', 'type-in-type', 'unsafe \\(co\\)fixpoints', 'positivity is assumed'))
+                cov['coqchk'] = dict(ok=okchk, seconds=round(dt, 1), summary=' '.join(summary.split())[:600])
+                if not okchk:
+                    tie_broken.append('coqchk does not accept properties/%s.vo without axioms: %s' % (prop, ' '.join(summary.split())[:400]))
         else:
             tie_broken.append('Coq development no longer compiles (%s): %s' % (b.get('coq_file'), b.get('coq_out', '')[-800:]))
     cov['obligations'] = max(obl['obligations'], 1)
